@@ -599,6 +599,23 @@ fn run_case(h: &str, p: &str, s: u64, ops: u64) -> Dump {
                         extra.push((*t, *client, Command::Eval { script: format!("local r = math.random(1000000); redis.call('SET', KEYS[1], r); return r + {}", j), keys: vec![format!("rnd{}", i % 3)], args: vec![] }));
                     }
                 }
+                // the script cache is part of the simulated server's state: a script is probed (EVALSHA, SCRIPT EXISTS)
+                // before anything in this run has loaded it, then loaded, used, flushed and probed again. The digest is
+                // SHA-1 of the fixed text below, written out so that computing it does not touch any cache.
+                const S: &str = "redis.call('INCR', KEYS[1]); return redis.call('GET', KEYS[1])";
+                const SHA: &str = "386e43170995de8d6518c32dd98dd38a9eb49668";
+                let t_end = sc.last().map_or(0, |x| x.0);
+                let sha = |k: &str| Command::EvalSha { sha1: SHA.into(), keys: vec![k.into()], args: vec![] };
+                extra.push((0, 0, sha("cnt0")));
+                extra.push((0, 0, Command::ScriptExists(vec![SHA.into()])));
+                extra.push((t_end / 3, 1, Command::ScriptLoad(S.into())));
+                extra.push((t_end / 3 + 1, 0, sha("cnt0")));
+                extra.push((t_end / 2, 1, Command::ScriptFlush));
+                extra.push((t_end / 2 + 1, 0, sha("cnt1")));
+                extra.push((t_end / 2 + 2, 0, Command::ScriptExists(vec![SHA.into()])));
+                // loaded again and left loaded when the run ends (a cache that outlives the run would show in the next one)
+                extra.push((2 * t_end / 3, 1, Command::ScriptLoad(S.into())));
+                extra.push((2 * t_end / 3 + 1, 0, sha("cnt1")));
                 sc.extend(extra);
                 sc.sort_by_key(|x| x.0);
             }
